@@ -607,22 +607,29 @@ def to_crlf(text):
 
 
 def run_failclose(path, conf, recs, use_with):
-    """The fault sequence "close fails": conf announces a count different from len(recs); the records are written,
-    close() is reached (explicitly or by leaving a with block) and raises; the program drops the writer.
-    Returns (exception code of close or None, bytes left on disk, the reader's observation on them)."""
+    """Fault sequences around an announced count that differs from len(recs): the records are handed to the
+    writer and close() is reached (explicitly, or by leaving a with block - also when a writeline raised inside
+    it); the program then drops the writer.  Returns (code of the exception that escaped or None, bytes left on
+    disk, the reader's observation on them, whether close() completed)."""
     import gc as _gc
     raised = [None]
+    closed = [False]
 
     def run():
         if use_with:
-            with GroFile()(path, "w") as out:
-                apply_conf(out, conf)
-                write_records(out, conf, recs)
+            out = GroFile()(path, "w")
+            try:
+                with out:
+                    apply_conf(out, conf)
+                    write_records(out, conf, recs)
+            finally:
+                closed[0] = bool(out._file.closed)
         else:
             out = GroFile()(path, "w")
             apply_conf(out, conf)
             write_records(out, conf, recs)
             out.close()
+            closed[0] = True
     try:
         run()
     except Exception as e:  # noqa: BLE001
@@ -630,7 +637,7 @@ def run_failclose(path, conf, recs, use_with):
     _gc.collect()                           # whatever was buffered reaches the disk
     with open(path, "rb") as f:
         text = f.read().decode("latin-1")
-    return raised[0], text, run_reader(path)
+    return raised[0], text, run_reader(path), closed[0]
 
 
 def numeric_line(text, index):
